@@ -87,10 +87,12 @@ func buildCatalogue() (grammar *catalogue, extra *catalogue, ar *arities) {
 	expand1(grammar, bBool)
 	expand1(grammar, bTime)
 	expand1(grammar, bBytes)
+	// every combinator over deliberately coarse / fine component instances at the element types
+	// the library special-cases (custom.go)
+	registerCustom(grammar)
 
 	// instances outside the closure
 	extra.add(hn.n)
-	extra.add(baseNew().n)
 	extra.add(given("string", []string{"", "a", "b", "ab"}).n)
 	extra.add(number("int8", []int8{0, 1, -1, 127, -128}).n)
 	extra.add(number("int16", []int16{0, 1, -1, 32767, -32768}).n)
